@@ -421,9 +421,6 @@ impl<T: ClusterKey> TopologyManager<T> {
         partition_replicas: &HashMap<PartitionId, ArrayVec<T, MAX_REPLICATION_FACTOR>>,
         active_nodes: HashMap<PeerId, (u64, usize)>,
     ) {
-        // Update our partition replica assignments
-        self.partition_replicas = partition_replicas.clone();
-
         // Update active nodes, but keep ourselves active
         let local_peer_id = *self.local_cluster_ref.id().peer_id().unwrap();
         self.active_nodes = active_nodes;
@@ -443,6 +440,11 @@ impl<T: ClusterKey> TopologyManager<T> {
         for peer_id in self.active_nodes.keys() {
             self.node_heartbeats.insert(*peer_id, now);
         }
+
+        // The sender computed its replica assignments from its own view of the cluster, which
+        // may not include this node or nodes only we know about; derive ours from the merged
+        // membership so they stay a function of the members we know.
+        self.recalculate_partition_assignments();
 
         info!("updated partition replica assignments from remote information");
     }
